@@ -2900,6 +2900,33 @@ def search(ctx, broken):
             if 'perturb' not in m and m.get('via') != 'family' and rng.random() < 0.3:
                 m['alias'] = True
         _run_cell(ctx, spec, pts, rels, muts)
+    # left-handed cells (negative determinant): a row negated or two rows exchanged; first definition and re-definition
+    for it in range(ctx.n(12, 300) * (2 if broken else 1)):
+        regime = 'grid' if it % 2 == 0 else 'float'
+        spec = gen_spec(rng, regime, kinds=[rng.choice(['vects', 'vectors'])], ints=False)
+        V = spec['kw']['vects'] if spec['kind'] == 'vects' else [spec['kw']['avect'], spec['kw']['bvect'], spec['kw']['cvect']]
+        V = [list(r) for r in V]
+        if rng.random() < 0.5:
+            i = rng.randrange(3)
+            V[i] = [-x for x in V[i]]
+        else:
+            i, j = rng.sample(range(3), 2)
+            V[i], V[j] = V[j], V[i]
+        lkw = {'vects': V} if spec['kind'] == 'vects' else {'avect': V[0], 'bvect': V[1], 'cvect': V[2]}
+        if 'origin' in spec['kw']:
+            lkw['origin'] = spec['kw']['origin']
+        left = dict(spec, kw=lkw)
+        base = gen_spec(rng, regime) if rng.random() < 0.5 else None
+        if base is not None and base['via'] in ('ctor', 'family') and rng.random() < 0.5:
+            base['via'] = 'set'
+        first, muts = (left, []) if base is None else (base, [dict(left, via=rng.choice(['set', 'method', 'positional']))])
+        try:
+            pts, rels = _place(rng, left, regime, 4)
+        except Exception as e:  # noqa
+            ctx.violate(f"construct:{left['kind']}", f'valid cell definition {_short(left)} raised {type(e).__name__}: {e}',
+                        {'op': 'cell', 'spec': _short(left), 'points': [], 'rels': [], 'mutations': []})
+            continue
+        _run_cell(ctx, first, pts, rels, muts, light=(it % 3 != 0), check_base=base is None)
     # near-degenerate (still realisable) cells: one angle within a few degrees of 0 or 180
     for it in range(ctx.n(12, 300) * (2 if broken else 1)):
         ang = {'alpha': 90.0, 'beta': 90.0, 'gamma': 90.0}
